@@ -18,6 +18,10 @@ ROOT = Path(__file__).resolve().parent.parent
 LEAN = ROOT / "lean"
 BIN = LEAN / ".lake" / "build" / "bin"
 EVIDENCE = ROOT / "evidence"
+if os.environ.get("ANYIO_REPO", "/repo").rstrip("/") != "/repo":
+    # a run against a scratch copy (seeded change): its evidence must not replace the committed
+    # evidence, which describes runs against /repo itself
+    EVIDENCE = ROOT / "replays" / "scratch-evidence"
 REPLAYS = ROOT / "replays"
 CORPUS = ROOT / "corpus"
 REPO = Path(os.environ.get("ANYIO_REPO", "/repo"))
@@ -414,7 +418,7 @@ def check_main(
         "wall_s": round(wall, 2),
         "violations": violations_printed,
     }
-    EVIDENCE.mkdir(exist_ok=True)
+    EVIDENCE.mkdir(parents=True, exist_ok=True)
     (EVIDENCE / f"{prop}.json").write_text(json.dumps(ev, indent=1, default=str))
     print(f"{prop} tier={tier} seed={seed} theorems={len(clean)}/{len(thms)} cases={res.evaluations} "
           f"traces={res.traces_validated} nontrivial={len(res.nontrivial)} "
